@@ -58,6 +58,30 @@ def EnergyConserved (k : ℕ) (γ E : ℝ) (ρ u p : ℝ → ℝ) (R : ℝ) : Pr
 def MassConserved (k : ℕ) (ρ₀ ω : ℝ) (ρ : ℝ → ℝ) (R : ℝ) : Prop :=
   massBehind k ρ R = massBehind k (ambientDensity ρ₀ ω) R
 
+/-! ### The normalisation `__init__` computes (sedov.py:139-180), in λ-space
+
+`alpha` is defined by the code from two integrals, `eval1 = quad(efun01, vmin, v2)` and
+`eval2 = quad(efun02, vmin, v2)`.  After the substitution λ = λ(v) (theorems
+`*_efun01_pullback`, `*_efun02_pullback` in Props/C11/SedovIntegrands.lean) these are the
+λ-space integrals below, for the similarity functions f (velocity), g (density), h (pressure). -/
+
+/-- first energy integral in λ-space: ∫₀¹ g f² λ^(k-1) dλ (kinetic) -/
+def J1 (k : ℕ) (f g : ℝ → ℝ) : ℝ := ∫ x in (0:ℝ)..1, g x * f x ^ 2 * x ^ (k - 1)
+/-- second energy integral in λ-space: ∫₀¹ h λ^(k-1) dλ (internal) -/
+def J2 (k : ℕ) (h : ℝ → ℝ) : ℝ := ∫ x in (0:ℝ)..1, h x * x ^ (k - 1)
+
+/-- `eval1` of `__init__` after the substitution λ = λ(v): `efun01 = dλ/dv · λ^(k+1) · gpogm · g · v²`
+with f = a_val·v·λ, a_val = xg2·gamp1/4, gpogm = (γ+1)/(γ-1)  (see `efun01_pullback`) -/
+def eval1 (k : ℕ) (γ ω : ℝ) (f g : ℝ → ℝ) : ℝ :=
+  ((γ + 1) / (γ - 1)) / ((1 / 4) * ((k : ℝ) + 2 - ω) * (γ + 1)) ^ 2 * J1 k f g
+/-- `eval2` of `__init__` after the substitution: `efun02 = dλ/dv · λ^(k-1) · h · 8/((k+2-ω)²(γ+1))` -/
+def eval2 (k : ℕ) (γ ω : ℝ) (h : ℝ → ℝ) : ℝ :=
+  8 / (((k : ℝ) + 2 - ω) ^ 2 * (γ + 1)) * J2 k h
+
+/-- `alpha` as `__init__` computes it from eval1, eval2 (sedov.py:176-180) -/
+def alphaCode (kr γ e1 e2 : ℝ) : ℝ :=
+  if kr = 1 then (1 / 2) * e1 + e2 / (γ - 1) else (kr - 1) * Real.pi * (e1 + 2 * e2 / (γ - 1))
+
 end
 
 end EPV.Spec.Sedov
